@@ -68,11 +68,11 @@ def recorded_randperm(torch, log):
         torch.randperm = orig
 
 
-def make_spy(torch, T, decode):
+def make_spy(torch, T, decode, value=float):
     """A custom temporal.Approximator whose calculate_loss / calculate_metrics record what they
     were called with.  `decode(args) -> list of training-point indices` identifies the points of
     a batch.  Every call returns its own call index as the value (so that the history entries can
-    be traced to the call that produced them)."""
+    be traced to the call that produced them); `value(k)` may map the index to signed / zero / NaN values."""
 
     class Spy(T.Approximator):
         def __init__(self):
@@ -87,14 +87,14 @@ def make_spy(torch, T, decode):
 
         def calculate_loss(self, *args):
             k = len(self.calls)
-            self.calls.append(('loss', decode(args)))
-            return (self.w * 0).sum() + float(k)
+            self.calls.append(('loss', decode(args), value(k)))
+            return (self.w * 0).sum() + value(k)
 
         def calculate_metrics(self, *args):
             metrics = args[-1]
             k = len(self.calls)
-            self.calls.append(('metrics', decode(args[:-1])))
-            return {name: torch.tensor(float(k)) for name in metrics}
+            self.calls.append(('metrics', decode(args[:-1]), value(k)))
+            return {name: torch.tensor(value(k)) for name in metrics}
     return Spy()
 
 
